@@ -1,4 +1,5 @@
 import PcfgVerif.Properties.PQRestore
+import PcfgVerif.Lemmas.TrainedWF
 import PcfgVerif.Lemmas.SoftFloatLemmas
 import PcfgVerif.Generated.Session
 /-!
@@ -110,5 +111,17 @@ regenerated from the source; the refusal itself is exercised by the harness on t
 theorem C08_uuid_refused :
     Generated.Session.uuidMismatchRefuses = true ∧ Generated.Session.loadSaveBeforeGrammar = true := by
   decide
+
+/-- **C08 for trained rulesets over binary64, without a well-formedness hypothesis** (`TrainedCols`, see `C01_trained_order`): a run
+resumed from any saved probability emits exactly the pre-terminals at or below it, once each, in order -/
+theorem C08_trained_resume (parseP : CPs → Option Nat) (showP : Nat → CPs) (neg1 : Nat)
+    (hround : ∀ p, parseP (showP p) = some p) (hshow : ∀ p, CleanProb (showP p)) (g : Grid Nat)
+    (hcols : TrainedCols parseP showP neg1 g) (m : Nat)
+    (s : PQState) (h : Reach sfAlg.toPOps g (restoreNodes sfAlg.toPOps g m 0) s) :
+    (s.popped ++ s.queue).Nodup ∧
+    NonIncreasing sfAlg.toPOps g s.popped ∧
+    (∀ v ∈ s.popped ++ s.queue, ValidNode g v ∧ sfAlg.le (nodeProb sfAlg.toPOps g v) m = true) ∧
+    (s.queue = [] → s.popped.Perm ((allNodes g).filter fun v => sfAlg.le (nodeProb sfAlg.toPOps g v) m)) :=
+  C08_resume_binary64 g (trained_grid_wf parseP showP neg1 hround hshow g hcols) m s h
 
 end Pcfg.C08
